@@ -97,7 +97,7 @@ struct Endpoint {
         ascon_masked_key_128_t mk128; ascon_masked_key_160_t mk160;
         ascon128_isap_aead_key_t ik128; ascon128a_isap_aead_key_t ik128a; ascon80pq_isap_aead_key_t ik80;
     } u;
-    alignas(16) unsigned char cppmem[512];
+    alignas(16) unsigned char cppmem[4096];
     ascon::aead *cpp = nullptr;
     bool live = false;
     size_t obj_bytes() const
